@@ -98,6 +98,50 @@ class AttrNestedGen(sc.Gen):
         return ["scalar", sc.S(1)]
 
 
+SMALL_NAMES = ["gain", "w", "count", "note", "arr", "t", "lst", "p", "mid", "leaf", "cfg"]
+
+
+def gen_tree(rng, depth):
+    """structured attribute-nested object tree: 1-2 child objects per level down to `depth`, leaf
+    attributes drawn from a SMALL name pool so that a name may occur at some levels and be missing
+    at intermediate ones"""
+    g = AttrNestedGen(rng, {"rng_in_container": True, "fallback_in_container": True})
+    attrs = []
+    names = rng.sample(SMALL_NAMES, rng.randint(1, 5))
+    for k in names:
+        if depth > 0 and rng.chance(0.45):
+            attrs.append([k, gen_tree(rng, depth - 1)])
+        else:
+            attrs.append([k, rng.weighted([
+                (lambda: ["scalar", sc.S(sc.gen_scalar(rng))], 5), (lambda: ["path", "a/b"], 1),
+                (lambda: sc.gen_ndarray(rng), 2), (lambda: sc.gen_tensor(rng), 3), (lambda: sc.gen_npscalar(rng), 1),
+                (lambda: ["mk_module", "Linear", rng.randint(0, 3)], 1), (lambda: g.value(1, False), 3)])()])
+    if depth > 0 and not any(v[0] == "obj" for _, v in attrs):
+        attrs.append(["child", gen_tree(rng, depth - 1)])
+    return ["obj", rng.choice(["SA", "SB", "SC"]), attrs]
+
+
+def names_by_depth(spec, d=0, acc=None):
+    acc = acc if acc is not None else {}
+    if spec[0] == "obj":
+        for k, v in spec[2]:
+            acc.setdefault(k, set()).add(d)
+            names_by_depth(v, d + 1, acc)
+    return acc
+
+
+def types_hit(spec, d=0, acc=None):
+    """type name -> set of depths at which some attribute is an instance of it"""
+    acc = acc if acc is not None else {}
+    if spec[0] == "obj":
+        for k, v in spec[2]:
+            for t in TYPES:
+                if is_instance(v, t):
+                    acc.setdefault(t, set()).add(d)
+            types_hit(v, d + 1, acc)
+    return acc
+
+
 def scratch():
     d = os.path.join(os.environ.get("QVERIF_SCRATCH", "/tmp"), "c14")
     os.makedirs(d, exist_ok=True)
@@ -208,23 +252,93 @@ def probe_hybrid(ctx):
             shutil.rmtree(base, ignore_errors=True)
 
 
+def ptycho_stream(ctx):
+    """`Ptychography.save(skip=…)`: the caller's skip names/types must be honoured together with the
+    dataset skip of the default mode, for save_raw_data False and True, both stores"""
+    from quantem.core.io import serialize
+    from . import ptycho_tiny as pt
+    import torch
+    import numpy as np
+    with contextlib.redirect_stdout(io.StringIO()):
+        prob = pt.make_ptycho(scan=(4, 3), roi=(8, 8), seed=0, rng_seed=7)
+    plain = [k for k, v in vars(prob).items() if not isinstance(v, torch.nn.Module) and k not in ("_dset", "dset")]
+    tmap = {"list": list, "dict": dict, "Tensor": torch.Tensor, "ndarray": np.ndarray, "str": str, "float": float}
+    rng = ctx.rng.fork(4242)
+    for j in range(ctx.n(6, 40)):
+        names = rng.sample(plain, rng.randint(1, 3))
+        tname = rng.choice(sorted(tmap)) if rng.chance(0.5) else None
+        raw = rng.chance(0.5)
+        store = rng.choice(["zip", "dir"])
+        base = os.path.join(scratch(), f"pty{j}")
+        shutil.rmtree(base, ignore_errors=True)
+        os.makedirs(base)
+        path = os.path.join(base, "p.zip" if store == "zip" else "pdir")
+        case = {"ptycho": True, "names": names, "type": tname, "save_raw_data": raw, "store": store}
+        ctx.count()
+        try:
+            with contextlib.redirect_stdout(io.StringIO()):
+                prob.save(path, store=store, skip=list(names) + ([tmap[tname]] if tname else []), save_raw_data=raw, verbose=False)
+                back = serialize.load(path)
+        except Exception as e:  # noqa
+            ctx.pred_fail(f"ptycho-save-raises:{type(e).__name__}", "Ptychography.save/load with skip raised", case, observed=str(e)[:200], required="ok")
+            continue
+        finally:
+            shutil.rmtree(base, ignore_errors=True)
+        have = set(vars(back))
+        for k in names:
+            if k in have:
+                ctx.pred_fail("ptycho-skip-name", f"Ptychography.save(skip=[{k!r}]) did not remove the attribute", case, observed="present", required="absent")
+        if tname:
+            for k, v in vars(prob).items():
+                if k in plain and isinstance(v, tmap[tname]) and k in have:
+                    ctx.pred_fail("ptycho-skip-type", f"Ptychography.save(skip=[{tname}]) kept attribute {k}", case, observed="present", required="absent")
+        if not raw and ("_dset" in have or "dset" in have):
+            ctx.pred_fail("ptycho-dset-kept", "default Ptychography.save kept the raw dataset", case, observed="present", required="absent")
+        if raw and "_dset" not in have:
+            ctx.pred_fail("ptycho-dset-dropped", "save_raw_data=True dropped the dataset", case, observed="absent", required="present")
+        for k in plain:
+            v = vars(prob)[k]
+            if k not in names and not (tname and isinstance(v, tmap[tname])) and k not in have and v is not None:
+                ctx.pred_fail("ptycho-survivor-lost", f"attribute {k} not named in skip is missing", case, observed="absent", required="present")
+        ctx.mark(("ptycho", len(names), tname, raw, store))
+        ctx.dist[f"ptycho:raw={raw}:{store}"] += 1
+
+
 def run(ctx):
     from qv.driver import Driver
     drv = Driver("C14")
     probe_hybrid(ctx)
     try:
-        n = ctx.n(60, 700)
+        n = ctx.n(140, 1500)
         for i in range(n):
             rng = ctx.rng.fork(i)
-            g = AttrNestedGen(rng, {"rng_in_container": True, "fallback_in_container": True})
-            recipe = g.root(rng.weighted([(1, 2), (2, 4), (3, 3)]))
+            if rng.chance(0.5):
+                g = AttrNestedGen(rng, {"rng_in_container": True, "fallback_in_container": True})
+                recipe = g.root(rng.weighted([(1, 2), (2, 4), (3, 3)]))
+            else:
+                recipe = gen_tree(rng, rng.weighted([(1, 2), (2, 4), (3, 3), (4, 1)]))
             spec = sc.observe(sc.Builder(None).build(recipe))
-            pool = sorted(all_attr_names(spec, set()))
+            nd = names_by_depth(spec)
+            pool = sorted(nd)
+            deep = [k for k in pool if max(nd[k]) >= 2]
             names = rng.sample(pool, rng.randint(0, min(3, len(pool)))) if pool else []
+            if deep and rng.chance(0.6):
+                names.append(rng.choice(deep))     # a name that occurs (also) deep in the tree
+            names = sorted(set(names))
             if rng.chance(0.4):
                 names.append(rng.choice(["absent", "zz", "count"]))
-            types = rng.sample(sorted(TYPES), rng.weighted([(0, 4), (1, 4), (2, 2)]))
+            th = types_hit(spec)
+            nested_types = sorted(t for t, ds in th.items() if max(ds) >= 1)
+            types = []
+            for _ in range(rng.weighted([(0, 3), (1, 4), (2, 2)])):
+                src = nested_types if nested_types and rng.chance(0.7) else sorted(TYPES)
+                t = rng.choice(src)
+                if t not in types:
+                    types.append(t)
+            ctx.dist[f"max_name_depth:{max([max(nd[k]) for k in names if k in nd] + [-1])}"] += 1
+            ctx.dist[f"types_hit_nested:{sum(1 for t in types if t in nested_types)}"] += 1
             check_case(ctx, drv, recipe, names, types, rng.choice(["zip", "dir"]), i)
+        ptycho_stream(ctx)
     finally:
         drv.close()
 
@@ -234,6 +348,9 @@ def replay(ctx, rep):
     case = rep.get("case") or rep["correspondence_disagreements"][0]["case"]
     if case.get("probe") == "hybrid":
         probe_hybrid(ctx)
+        return True
+    if case.get("ptycho"):
+        ptycho_stream(ctx)
         return True
     drv = Driver("C14")
     try:
